@@ -96,11 +96,17 @@ func c19DrawPattern(t *rapid.T, id int, prev []*c19Pat) *c19Pat {
 		m[n-1] = 0x80
 	}
 	if rapid.IntRange(0, 23).Draw(t, "malformed") == 0 {
-		switch rapid.IntRange(0, 2).Draw(t, "mk") {
+		switch rapid.IntRange(0, 5).Draw(t, "mk") {
 		case 0:
 			b, m = nil, nil
 		case 1:
-			m = m[:len(m)-1]
+			m = m[:len(m)-1] // mask shorter than the bytes
+		case 2:
+			b = b[:len(b)-1] // bytes shorter than the mask (no bytes at all for n == 1)
+		case 3:
+			m = append(m, c19Byte(t, "mExtra")|1) // mask longer than the bytes
+		case 4:
+			b = append(b, c19Byte(t, "bExtra")) // bytes longer than the mask
 		default:
 			m[n-1] = 0
 		}
@@ -247,7 +253,7 @@ func propC19(t *rapid.T) {
 func TestC19(t *testing.T) {
 	runWitnesses(t, "C19")
 	colC19 = ev.New("C19", "rapid: sets of 1-8 opcode patterns of length 1-4 with bytes/masks from {00,0f,f0,ff,random}, "+
-		"don't-care bits set in Bytes, 1/24 malformed (empty, length mismatch, zero last mask byte), 1/3 derived from an "+
+		"don't-care bits set in Bytes, 1/24 malformed (empty, bytes shorter or longer than the mask, zero last mask byte), 1/3 derived from an "+
 		"earlier pattern by one bit of bytes/mask or by lengthening/shortening; NewMatcher must succeed iff all patterns "+
 		"are well formed and no two agree on their common mask bits over the common prefix; on success 12 byte strings "+
 		"(pattern instances with random don't-cares, one-bit neighbours, random, lengths 0-6) must match exactly the "+
